@@ -45,6 +45,10 @@ def units(tier):
     for pen, fi in acc:
         runs.append(dict(solver='AndersonCD', datafit='Quadratic', penalty=pen, X='corr32', max_iter=1, max_epochs=1,
                          max_epochs_unpatched=7, acc_stub=1, p0=2, fit_intercept=fi, ws_strategy='subdiff', warm=True))
+    # GramCD: an extrapolated point is only taken when it is feasible (its penalty value is finite)
+    for pen in (('L1+', 'IndicatorBox') if q else ('L1+', 'WeightedL1+', 'IndicatorBox', 'PositiveConstraint')):
+        runs.append(dict(solver='GramCD', datafit='Quadratic', penalty=pen, X='corr32', max_iter=1, max_iter_unpatched=7,
+                         acc_stub=1, use_acc=True, greedy_cd=False, warm=True, fit_intercept=False))
     # warm start from an arbitrary -- possibly infeasible -- point (e.g. the solution of the unconstrained problem):
     # one outer iteration with one epoch must return a feasible vector, converged or not
     for pen, fi in ((('L1+', False), ('WeightedL1+', False), ('L1+', True), ('IndicatorBox', False)) if q else
